@@ -37,6 +37,9 @@ def add_gamma(draw, spec):
             continue
         d = draw(st.sampled_from([0.1, 0.2, 0.25, 0.5, 0.3]))
         order = draw(st.sampled_from([1, 2, 3, 4, 2, 3, 6]))
+        if draw(st.integers(0, 7)) == 0:
+            # a delay of a few integration steps with a narrow kernel: more stages than the delay has steps
+            d, order = draw(st.sampled_from([(0.04, 12), (0.05, 12), (0.06, 16), (0.05, 8)]))
         jitter = draw(st.sampled_from([1.0, 1.0, 0.93, 1.08]))
         # s such that (d/s)^2 ~ order*jitter (stays within the same rounding bucket for these jitters)
         s = d / float(np.sqrt(order * jitter))
@@ -52,7 +55,7 @@ class GammaArm(Arm):
     budget = {"quick": 1500, "thorough": 12000}
     min_per_shard = 20
     case_timeout = 90
-    required_labels = ("vec", "novec", "euler", "scipy", "shared_source", "shared_target", "two_kernels")
+    required_labels = ("vec", "novec", "euler", "scipy", "shared_source", "shared_target", "two_kernels", "high_order")
 
     def strategy(self, ctx):
         @st.composite
@@ -71,7 +74,10 @@ class GammaArm(Arm):
             base = gen.uniquify_init(base)
             spec = add_gamma(draw, base)
             solver = draw(st.sampled_from(["euler", "euler", "scipy"]))
-            return {"spec": spec, "cfg": {"dt": draw(st.sampled_from([0.01, 0.005])), "steps": draw(st.integers(15, 40)),
+            dt = draw(st.sampled_from([0.01, 0.005]))
+            if any(e.get("sp") and (e["d"] / e["sp"]) ** 2 >= 7.5 for e in spec["edges"]):
+                dt = 0.005      # (the Euler iteration of a chain is only stable for rate*dt < 2)
+            return {"spec": spec, "cfg": {"dt": dt, "steps": draw(st.integers(15, 40)),
                                           "vectorize": draw(st.sampled_from([True, False, True])), "solver": solver}}
         from ..finding_predicates import repair_case
         return case().map(lambda c: repair_case(c, ctx))
@@ -97,6 +103,8 @@ class GammaArm(Arm):
         lab = ["vec" if vec else "novec", solver]
         if len(set(kernels)) >= 2:
             lab.append("two_kernels")
+        if any(n >= 8 for n, _ in kernels):
+            lab.append("high_order")
         if any(len(v) >= 2 for v in by_src.values()):
             lab.append("shared_source")
         if any(len(v) >= 2 for v in by_tgt.values()):
@@ -105,6 +113,9 @@ class GammaArm(Arm):
         res.nontrivial = len(set(kernels)) >= 2
         if not kernels:
             res.rejected = "no gamma edge drawn"
+            return res
+        if solver == "euler" and any(rate * dt > 1.6 for _, rate in kernels):
+            res.rejected = "Euler iteration of a kernel chain not stable at this step size (rate*dt > 1.6)"
             return res
         if any(e.get("d") is not None and e.get("sp") is None for e in spec["edges"]):
             res.labels.append("discrete_delay_in_between")
@@ -185,6 +196,49 @@ class GammaArm(Arm):
                 "cfg": case["cfg"]}
 
 
+class StructuredArm(GammaArm):
+    """3-6 structurally identical nodes, one (source variable, target variable) pair, 3-8 gamma-kernel edges whose sources
+    are drawn with repetitions and listed in drawn order (so that the kernel groups of the merged source variable read
+    its units in non-ascending, repeated or gapped order), one or two (delay, spread) pairs"""
+    name = "structured"
+    budget = {"quick": 300, "thorough": 3000}
+    min_per_shard = 10
+    required_labels = ("vec", "euler", "shared_source", "high_order")
+
+    def strategy(self, ctx):
+        @st.composite
+        def case(draw):
+            base = draw(gen.model_spec({"leak": True, "max_types": 1, "max_ops": 2, "max_nodes": 1, "min_nodes": 1, "max_edges": 0,
+                                        "depths": [0], "expr_depth": 2, "max_state": 2, "max_alg": 1, "max_in": 2,
+                                        "overrides": False, "collision": False, "funcs": ["sin", "tanh", "sigmoid"], "pow": False}))
+            from .c08 import ensure_input
+            base, _ = ensure_input(base, RefModel(base))
+            n = draw(st.integers(3, 6))
+            nt = base["nodes"][0][1]
+            base["nodes"] = [[f"p{i}", nt] for i in range(n)]
+            spec = gen.uniquify_init(base)
+            rm = RefModel(spec)
+            tg = sorted(k[len("p0/"):] for k, kd in rm.kind.items() if kd == "input" and k.startswith("p0/"))
+            sr = sorted(k[len("p0/"):] for k in rm.state_paths if k.startswith("p0/"))
+            tv, sv = draw(st.sampled_from(tg)), draw(st.sampled_from(sr))
+            m = draw(st.integers(3, 8))
+            pairs_ = [(0.1, 1), (0.2, 2), (0.1, 3), (0.05, 12)]
+            k0 = draw(st.integers(0, 3))
+            two = draw(st.booleans())
+            edges = []
+            for i in range(m):
+                d, order = pairs_[(k0 + (draw(st.integers(0, 1)) if two else 0)) % 4]
+                edges.append({"s": f"p{draw(st.integers(0, n - 1))}/{sv}", "t": f"p{draw(st.integers(0, n - 1))}/{tv}",
+                              "w": round(0.3 + 0.19 * i * (-1) ** i, 3), "d": d, "sp": round(d / float(np.sqrt(order)), 6),
+                              "et": None, "scope": ""})
+            spec["edges"] = edges
+            dt = 0.005 if any((e["d"] / e["sp"]) ** 2 >= 7.5 for e in edges) else 0.01
+            return {"spec": spec, "cfg": {"dt": dt, "steps": draw(st.integers(15, 30)),
+                                          "vectorize": draw(st.sampled_from([True, True, False])), "solver": "euler"}}
+        from ..finding_predicates import repair_case
+        return case().map(lambda c: repair_case(c, ctx))
+
+
 def _strip_spread(spec):
     s = copy.deepcopy(spec)
     for e in s["edges"]:
@@ -192,4 +246,4 @@ def _strip_spread(spec):
     return s
 
 
-ARMS = [GammaArm()]
+ARMS = [GammaArm(), StructuredArm()]
